@@ -49,6 +49,12 @@ CHECKS = {
         note="Trusted: hook H1 reads the cache without loading; rows are read from the backing collections directly. Compared only at quiescent points (the statement's scope).",
         technique="deterministic simulation: exact quiescence detection, live-vs-stored image comparison at every quiescent point",
         ref="DESIGN.md §6 C11"),
+    "C12": dict(
+        category="fault_enumeration",
+        text="Fault enumeration over crash points x seeded programs: run A (no fault) records its quiescent points; runs B_i inject an engine restart on the same store (SQLite file / transplanted in-memory collections) or a cache eviction at quiescent point i - every point in the thorough tier, up to five seeded points and one pair in the quick tier - and must show the same client history (canonical sequential client), the same per-phase message multisets up to ids/tids/timestamps, the same final task outcomes and the same terminal event and outputs as A. Programs and schedules are sampled; within a program the crash points are enumerated.",
+        note="Trusted: crash = drop every task/timer of the old engine epoch without running it, only the store survives; eviction through the guarded cache hook. Faults at quiescent points only (the statement's scope). An else-branch still `pending` at the end of a truncated history counts as `skipped` (it is decided lazily).",
+        technique="deterministic simulation: crash/restart and eviction injected at every quiescent point, differential against the uninterrupted run",
+        ref="DESIGN.md §6 C12"),
     "C15": dict(
         text="Seeded search over parent/child(/grandchild) models, child endings (completed, error, aborted, missing model) and interleavings of the child's return with other parent activity: the calling act is open at every quiescent point before the child's terminal event, closed exactly once afterwards with the prescribed state/data/error, the child's inputs equal the call's options, the successor starts once and only after the call is closed, the parent's terminal event is generated after the child's. Sampling: evidence, not proof.",
         note="Trusted: H1 live dumps at quiescent points, id shim for event generation order. Child ending `skipped` is not reachable through client actions and is not generated.",
